@@ -64,12 +64,13 @@ Record ghost := mkGhost {
   g_pre : list ref;    (* records whose refCount++ is done but which are not yet stored in key g_dk's list *)
   g_dk : N;            (* the key this critical section works on *)
   g_lk : bool;         (* key g_dk's currentLock / holder queue are being rebuilt *)
+  g_pw : bool;         (* g_ph lists wait-queue entries (else holder-queue entries) *)
   g_dl : Z;            (* sum of holder depths of g_dk minus its `locked` *)
   g_cl : Z; g_cw : Z   (* LockedCount / WaitCount updates still to come in this critical section *)
 }.
 #[export] Instance eta_ghost : Settable _ := settable! mkGhost
-  <g_xt; g_xe; g_pend; g_owe; g_ph; g_pre; g_dk; g_lk; g_dl; g_cl; g_cw>.
-Definition g0 : ghost := mkGhost [] [] [] [] [] [] 0 false 0 0 0.
+  <g_xt; g_xe; g_pend; g_owe; g_ph; g_pre; g_dk; g_lk; g_pw; g_dl; g_cl; g_cw>.
+Definition g0 : ghost := mkGhost [] [] [] [] [] [] 0 false false 0 0 0.
 
 Definition tcount (s : db) (g : ghost) (r : ref) : nat :=
   (occ r (wrefs (twheel s)) + occ r (wrefs (tlong s)) + occ r (g_xt g))%nat.
@@ -78,6 +79,8 @@ Definition ecount (s : db) (g : ghost) (r : ref) : nat :=
 Definition phk (g : ghost) (k : N) : list ref := if N.eqb k (g_dk g) then g_ph g else [].
 Definition dlk (g : ghost) (k : N) : Z := if N.eqb k (g_dk g) then g_dl g else 0%Z.
 Definition lkk (g : ghost) (k : N) : bool := N.eqb k (g_dk g) && g_lk g.
+Definition phl (s : db) (g : ghost) : list ref :=
+  if g_pw g then m_wq (getm s (g_dk g)) else holders (getm s (g_dk g)).
 
 (* per-record clauses *)
 Record rec_ok (s : db) (g : ghost) (r : ref) (l : lockrec) : Prop := mkRecOk {
@@ -116,7 +119,9 @@ Record mgr_ok (s : db) (g : ghost) (k : N) (m : mgr) : Prop := mkMgrOk {
   mo_nocur : lkk g k = false -> m_cur m = None -> m_hq m = [];
   mo_ref : N.to_nat (m_ref m) = key_cnt k (store s);
   mo_bnd : m_ref m < 4294967296 /\ m_locked m < 4294967296;
-  mo_map : lkk g k = false -> forall q, m_locks m = Some q -> map_ok s q
+  mo_map : lkk g k = false -> forall q, m_locks m = Some q -> map_ok s q;
+  mo_cap : (forall q, m_locks m = Some q -> hq_cap q = 0 -> hq_fast q = [])
+           /\ (forall q, m_wait m = Some q -> wq_cap q = 0 -> wq_fast q = [])
 }.
 
 Record GInv (s : db) (g : ghost) : Prop := mkGInv {
@@ -126,8 +131,8 @@ Record GInv (s : db) (g : ghost) : Prop := mkGInv {
   gi_rec : forall r l, aget (store s) r = Some l -> rec_ok s g r l;
   gi_mgr : forall k m, aget (mgrs s) k = Some m -> mgr_ok s g k m;
   gi_str : forall r, aget (store s) r = None -> (tcount s g r + ecount s g r)%nat = O;
-  gi_ph : forall r, In r (g_ph g) -> l_locked (getl s r) = 0;
-  gi_phle : forall r, (occ r (g_ph g) <= occ r (holders (getm s (g_dk g)) ++ m_wq (getm s (g_dk g))))%nat;
+  gi_ph : forall r, In r (g_ph g) -> (g_pw g = false -> l_locked (getl s r) = 0) /\ l_timeouted (getl s r) = true;
+  gi_phle : forall r, (occ r (g_ph g) <= occ r (phl s g))%nat;
   gi_nlocked : (n_locked (cnt s) + g_cl g = Z.of_N (sum_locked (mgrs s)))%Z;
   gi_nwait : (n_wait (cnt s) + g_cw g = Z.of_nat (live_cnt (store s)))%Z;
   gi_nkey : n_key (cnt s) = Z.of_nat (length (mgrs s))
